@@ -293,6 +293,7 @@ type c01Case struct {
 	Switches []string          `json:"switches"`
 	MustName string            `json:"must_name"`
 	Entry    string            `json:"entry"` // "" loader.LoadWithContext | cli-project | cli-model | parse-yaml
+	Linked   bool              `json:"linked"` // the project directory is a symbolic link to the directory that holds the files
 }
 
 type c01Result struct {
@@ -307,7 +308,16 @@ var reFrame = regexp.MustCompile(`github\.com/compose-spec/compose-go/v2/([^\s(]
 func c01Run(wd string, cs c01Case) (res c01Result) {
 	res.ID = cs.ID
 	dir := filepath.Join(wd, fmt.Sprint(cs.ID))
-	_ = os.MkdirAll(dir, 0o755)
+	if cs.Linked {
+		real := filepath.Join(wd, fmt.Sprint(cs.ID)+".real", "v1")
+		_ = os.MkdirAll(real, 0o755)
+		defer os.RemoveAll(filepath.Dir(real))
+		if err := os.Symlink(real, dir); err != nil {
+			_ = os.MkdirAll(dir, 0o755)
+		}
+	} else {
+		_ = os.MkdirAll(dir, 0o755)
+	}
 	defer os.RemoveAll(dir)
 	for _, d := range cs.Dirs {
 		_ = os.MkdirAll(filepath.Join(dir, d), 0o755)
@@ -791,6 +801,8 @@ func C01(c *core.Ctx) {
 			d += k + "=" + files[k] + " "
 		}
 		cases = append(cases, c01Case{ID: len(cases), Family: "cycle", Desc: d, Expect: "error", Files: files, Main: []string{"compose.yaml"}})
+		// the same project reached through a symbolic link to its directory
+		cases = append(cases, c01Case{ID: len(cases), Family: "cycle", Desc: "(project directory is a symbolic link) " + d, Expect: "error", Files: files, Main: []string{"compose.yaml"}, Linked: true})
 	}
 	// shapes that need more than one file
 	multi := []map[string]string{
